@@ -71,6 +71,8 @@ func mutValue(op string, old interface{}) (interface{}, bool) {
 		return map[string]interface{}{}, true
 	case "ipv6":
 		return "fe80::1", true
+	case "ipv6cidr":
+		return "fd00::/8", true
 	case "bigint":
 		return float64(99999999999), true
 	}
@@ -153,7 +155,20 @@ func genMutCase(r *Rng, id int, tier string) *Sx {
 		if len(paths) == 0 {
 			continue
 		}
-		c.Add(Ls(At("m"), Ai(int64(d)), At(Pick(r, paths)), At(Pick(r, mutOps))))
+		op, path := Pick(r, mutOps), Pick(r, paths)
+		if r.P(12) {
+			// an IPv6 CIDR where the manifest has an IPv4 one (a legal ipBlock of a dual-stack cluster)
+			var cidrPaths []string
+			for _, p := range paths {
+				if strings.HasSuffix(p, "|cidr") || strings.Contains(p, "|except|") {
+					cidrPaths = append(cidrPaths, p)
+				}
+			}
+			if len(cidrPaths) > 0 {
+				op, path = "ipv6cidr", Pick(r, cidrPaths)
+			}
+		}
+		c.Add(Ls(At("m"), Ai(int64(d)), At(path), At(op)))
 	}
 	return c
 }
@@ -275,9 +290,16 @@ func execMutCase(c *Sx, env *execEnv) (*Sx, []Violation) {
 			panics = append(panics, p)
 		}
 	}
+	var semViols []Violation
 	run("list", func() {
 		_, _, e := connlist.NewConnlistAnalyzer(connlist.WithMuteErrsAndWarns()).ConnlistFromDirPath(dirM)
 		env.count("mut-list:" + map[bool]string{true: "ok", false: "err"}[e == nil])
+		// the analysis is IPv4 only: an ipBlock with an IPv6 CIDR must be refused, never read as some IPv4 range (C01)
+		for _, m := range args[2:] {
+			if m.Head() == "m" && len(m.L) >= 4 && m.L[3].A == "ipv6cidr" && e == nil {
+				semViols = append(semViols, Violation{Prop: "C01", Kind: "ipv6-cidr-read-as-ipv4", Detail: "an ipBlock holds the IPv6 CIDR fd00::/8 (" + m.L[2].A + ") and list returns a report instead of an error", Case: c.String()})
+			}
+		}
 	})
 	run("list-exposure", func() {
 		ca := connlist.NewConnlistAnalyzer(connlist.WithMuteErrsAndWarns(), connlist.WithExposureAnalysis())
@@ -311,9 +333,11 @@ func execMutCase(c *Sx, env *execEnv) (*Sx, []Violation) {
 			_, _ = cli.VerifRun(evalArgs(dirM, sa[1], sa[0], sb[1], sb[0], "", "", "80", "tcp"))
 			_, _ = cli.VerifRun(evalArgs(dirM, "", "default", sb[1], sb[0], "10.1.2.3", "", "80", "tcp"))
 			_, _ = cli.VerifRun(evalArgs(dirM, sa[1], sa[0], "", "default", "", "10.1.2.3", "80", "udp"))
+			_, _ = cli.VerifRun(evalArgs(dirM, sa[1], sa[0], "", "default", "", "fd00::1", "443", "tcp"))
+			_, _ = cli.VerifRun(evalArgs(dirM, "", "default", sb[1], sb[0], "::ffff:10.0.0.1", "", "80", "tcp"))
 		})
 	}
-	var viols []Violation
+	viols := semViols
 	if len(panics) == 0 {
 		out.Add(At("nopanic"))
 		env.nontr[fmt.Sprint(args[2:])] = true
